@@ -155,6 +155,9 @@ def directed(rng, probes=False):
         # an OnStop hook that uses its client (IsStopped, Notify): whoever stops the client - the reader too - runs it where that is possible
         add('hook-touches-client-%d' % v, {'hooktouch': True, 'callback': e, 'recvUnblocks': bool(v == 0)}, [op('o1'), op('o2', 'batch', [False, True]), D,
                                                                                                     [dict(a='close'), dict(a='peerclose'), dict(a='recverr')][v], D, op('o3'), D, dict(a='close'), D])
+        # replies addressed to nobody (id null, no id at all): nobody's - with one call waiting as with several
+        add('reply-to-nobody-%d' % v, {}, [op('o1'), D, peer((['nullerr', 'noiderr', 'nullres'][v], 0, False)), D, peer(R(1, e)), D,
+                                           op('o2'), op('o3', 'batch', [False, False]), D, peer(('nullerr', 0, False), ('noiderr', 0, False)), D, peer(R(3), ('nullres', 0, False), R(2, e), R(4)), D])
         add('close-twice-%d' % v, {'callback': True}, [peer(('call', 7, False)), D, dict(a='recverr'), D, dict(a='close'), D, dict(a='cbret', id='7'), D])
         add('reply-after-close-%d' % v, {}, [op('o1'), D, dict(a='close'), peer(R(1)), D])
     return out
